@@ -40,7 +40,23 @@ func srvFamily(prop, name string, weight int, gen func(*RNG) *SrvPlan, online fu
 	}
 }
 
+func lifeFamily(prop, name string, weight int, gen func(*RNG) *SrvPlan, online func(*SrvWorld) *Violation, final func(*SrvWorld, *LifeReport) *Violation, post func(*SrvWorld, *RunResult)) *Family {
+	return &Family{Prop: prop, Name: name, Weight: weight,
+		Gen: func(r *RNG) any { p := gen(r); p.Family = name; return p },
+		Run: func(plan any, tape *Tape, ss uint64) *RunResult {
+			return RunSrvLife(plan.(*SrvPlan), tape, ss, prop, online, final, post)
+		},
+		Decode: func(b json.RawMessage) (any, error) {
+			p := &SrvPlan{}
+			err := json.Unmarshal(b, p)
+			return p, err
+		},
+	}
+}
+
 func init() {
+	register(lifeFamily("C17", "c17", 1, GenC17, nil, c17Final,
+		func(w *SrvWorld, r *RunResult) { r.Nontrivial = c17Nontrivial(w) }))
 	register(srvFamily("C01", "c01", 1, GenC01, c01Online,
 		func(w *SrvWorld) *Violation { return c01Final(w, "C01") },
 		func(w *SrvWorld, r *RunResult) { r.Nontrivial = c01Nontrivial(w) }))
